@@ -106,8 +106,11 @@ def variants(rng, prog, thorough):
                 hidden = [rng.choice(hid_cand)]
                 sel = [o for o in inner_out if o not in hidden]
             pos = rng.randint(0, len(prog["nodes"]) - len(S))
+            gname = "inner"
+            if rout and rng.random() < 0.4:
+                gname = next(iter(rout))     # the wrapper is NAMED after the output it exposes through a rename (legal)
             try:
-                p2 = gen.nest(prog, S, rename_in=rin, rename_out=rout, inner_bound=ib, pos=pos, selected=sel)
+                p2 = gen.nest(prog, S, name=gname, rename_in=rin, rename_out=rout, inner_bound=ib, pos=pos, selected=sel)
             except Exception:  # noqa: BLE001
                 continue
             if rng.random() < 0.5:
@@ -134,7 +137,7 @@ def variants(rng, prog, thorough):
             sib = ""
             if rng.random() < 0.3:
                 # a SIBLING nested graph next to the first one (it may consume a name the first one binds inside)
-                s2 = [T for T in gen.convex_subsets(p2) if "inner" not in T]
+                s2 = [T for T in gen.convex_subsets(p2) if gname not in T]
                 if s2:
                     try:
                         T = rng.choice(s2)
@@ -143,7 +146,7 @@ def variants(rng, prog, thorough):
                         p2, sib = p3, "/sibling=" + "+".join(T)
                     except Exception:  # noqa: BLE001
                         pass
-            yield p2, hidden, f"S={'+'.join(S)}/rin={rin}/rout={rout}/ib={ib}/sel={sel}/depth{depth}{sib}"
+            yield p2, hidden, f"S={'+'.join(S)}/rin={rin}/rout={rout}/ib={ib}/sel={sel}/depth{depth}{sib}/name={gname}"
 
 
 def make_pairs(tier, rng):
